@@ -384,8 +384,7 @@ def solve_and_get_model(
         s = z3.Solver()
         s.add(*z3_csp)
         if s.check() == z3.sat:
-            m = s.model()
-            return {d.name(): cast(Any, m[d]).as_long() for d in m.decls()}
+            return _int_assignments(s.model())
         return None
 
     # Otherwise build an optimiser.
@@ -399,8 +398,7 @@ def solve_and_get_model(
 
     # Enumerate first Pareto-optimal model (suffices since *priority='pareto'*).
     if opt.check() == z3.sat:
-        m = opt.model()
-        return {d.name(): cast(Any, m[d]).as_long() for d in m.decls()}
+        return _int_assignments(opt.model())
 
     return None
 
@@ -448,12 +446,22 @@ def solve_pareto_front(
 
     results: list[dict[str, int]] = []
     while opt.check() == z3.sat:
-        m = opt.model()
-        results.append({d.name(): cast(Any, m[d]).as_long() for d in m.decls()})
+        solution = _int_assignments(opt.model())
+        results.append(solution)
         if max_solutions is not None and len(results) >= max_solutions:
             break
 
     return results
+
+
+def _int_assignments(model: z3.ModelRef) -> dict[str, int]:
+    """Integer-valued constants of *model* (the optimizer also reports auxiliary Booleans)."""
+    assignments: dict[str, int] = {}
+    for d in model.decls():
+        value = model[d]
+        if z3.is_int_value(value):
+            assignments[d.name()] = cast(Any, value).as_long()
+    return assignments
 
 
 # Choose which compilation backend to use - fast by default.
